@@ -49,9 +49,11 @@ CHECKS['C10'] = {
   'text': 'Coq theorems for every decoder behaviour (decoders are parameters of the session model): nothing escapes along any event sequence from boot '
           '(C10_no_escape: no unhandled exception, no non-terminating receive loop; invariant over the generated FSM + glue), at most one report per '
           'well-framed message, a malformed UPDATE keeps the Established session, re-arms the hold timer and leaves the connection record (decode mode) '
-          'untouched. Tie: FSM regenerated from fsm.py; glue by correspondence on hostile inputs (every bytes literal of the unit tests as UPDATE body, '
-          'mutations, random) in OpenSent/OpenConfirm/Established followed by known-good messages; oracle on the implementation incl. CPU budget.',
-  'note': 'the reconnect clause is covered by the oracle here and by C02; decoders termination is C11; Twisted stub; handler callbacks assumed not to raise',
+          'untouched; after any event sequence the agent is in session on a connected transport or has its reconnect scheduled '
+          '(C10_in_session_or_reconnect_scheduled, reachability invariant). Tie: FSM regenerated from fsm.py; glue by correspondence on hostile inputs (every bytes '
+          'literal of the unit tests as UPDATE body, mutations, structure-aware OPENs with random capability sets, random) in OpenSent/OpenConfirm/Established followed '
+          'by known-good messages; oracle on the implementation incl. CPU budget per delivered chunk (hang detection).',
+  'note': 'decoders are parameters of the model, so their termination is not a theorem here (C11 proves it per loop); the CPU budget on the implementation covers it in this check; Twisted stub; handler callbacks assumed not to raise',
   'technique': 'Coq proof (invariant by induction over event lists, generic preservation over generated FSM code) + translator + exploration correspondence',
 }
 CHECKS['C18'] = {
@@ -132,11 +134,14 @@ CHECKS['C01'] = {
 CHECKS['C02'] = {
   'text': 'Coq theorems for every decoder behaviour: every error close and every connection end re-arm the restart timer in ANY world; its expiry connects; from ANY '
           'world that is Idle with the restart pending the cooperative continuation reaches Established when the idle-hold period ends, with hold = min(configured, '
-          'proposed) and an OPEN carrying the configured hold time (C02_recovers); it then stays up while KEEPALIVEs arrive (C02_stays_up, induction). Oracle: reconnection '
-          'pending in every explored abstract state, recovery within idle_hold + connect_retry + 1 s and still up three hold times later, several timer configurations.',
-  'note': SESSION_NOTE + 'PARTIAL: the invariant "every reachable non-session state has a reconnection pending" is stated (C02_reconnect_pending_statement) and checked by '
-          'exploration only; its ingredients are proved. Model is of the code with fix 336756d',
-  'technique': 'Coq proof (symbolic execution over arbitrary worlds, 4-step recovery script, induction for stays-up) + translator + exploration correspondence',
+          'proposed) and an OPEN carrying the configured hold time (C02_recovers); it then stays up while KEEPALIVEs arrive (C02_stays_up, induction); and the invariant '
+          'C02_reconnect_pending: along EVERY event sequence after start-up (any connection results/losses on any connection, any bytes, any timer order, operator stop/start, '
+          'API sends), unless the operator stopped the peer, the FSM is in a session state on its connected tracked transport, or Idle with the restart timer armed or the close '
+          'of the tracked connection in progress, or in Connect with the connect-retry timer armed; Active is never entered (induction over event lists; every generated FSM '
+          'method x state by symbolic execution). Oracle: reconnection pending in every explored abstract state, recovery within idle_hold + connect_retry + 1 s and still up '
+          'three hold times later, several timer configurations.',
+  'note': SESSION_NOTE + 'Model is of the code with fix 336756d',
+  'technique': 'Coq proof (reachability invariant by induction over event lists with per-method symbolic execution, 4-step recovery script, induction for stays-up) + translator + exploration correspondence',
 }
 CHECKS['C03'] = {
   'text': 'Coq theorems for ARBITRARY hold times: negotiation = min and keepalive period = H/3; entering OpenConfirm arms keepalive H/3 and hold H (neither when H = 0); '
